@@ -17,7 +17,9 @@ package main
 // Reading of Go used here (trusted): `close(ch)` closes; a second close on one path panics (reported as unsupported);
 // calling a nil func panics (unsupported); `if x := f(); cond` binds then tests; conditions over `err`, `closeErr`
 // (whatever the local is called: the variable bound to the result of p.Close()) and `p.Close == nil` are decided by
-// the path; `err = <call mentioning both err and the close error>` merges, `err = <close error>` replaces.
+// the path; `err = <call mentioning both err and the close error>` merges, `err = <close error>` replaces,
+// `err = errors.Join(err, <close error or p.Close()>)` drops nil operands but wraps a non-nil err in a new value also when
+// the close error is nil (FinKind.wrapped: not what the code does now).
 // The ORDER of closing the sink and closing the file does not show in the table (harmless); a path that returns
 // before close(p.Sink) does.
 
@@ -150,6 +152,26 @@ func (x *provloopsFin) exec(stmts []ast.Stmt, env *provloopsFinEnv) {
 				}
 				if lhs == "err" && v.Tok == token.ASSIGN {
 					rhs := x.src(v.Rhs[0])
+					// err = errors.Join(err, p.Close()) / errors.Join(err, <close error>): nil operands are dropped
+					if c, ok := v.Rhs[0].(*ast.CallExpr); ok && x.src(c.Fun) == "errors.Join" && len(c.Args) == 2 && x.src(c.Args[0]) == "err" {
+						closeNil, okArg := env.closeNil, env.closeVar != "" && x.src(c.Args[1]) == env.closeVar
+						if x.isCloseCall(c.Args[1], env) {
+							x.callClose(env)
+							closeNil, okArg = env.cl != "fails", true
+						}
+						if okArg {
+							switch {
+							case closeNil && env.errNil: // errors.Join(nil, nil) = nil
+							case closeNil: // a new error value around err: not the same error for errutil.IsCtxError
+								env.res = "wrapped"
+							case env.errNil:
+								env.res, env.errNil = "closeErr", false
+							default:
+								env.res = "both"
+							}
+							continue
+						}
+					}
 					switch {
 					case env.closeVar != "" && rhs == env.closeVar:
 						if env.closeNil {
@@ -196,6 +218,13 @@ func (x *provloopsFin) exec(stmts []ast.Stmt, env *provloopsFinEnv) {
 					x.exec([]ast.Stmt{e}, env)
 				}
 			}
+		case *ast.DeferStmt:
+			// a defer inside the deferred function: runs when that function is left, on every path that reached it
+			if id, ok := v.Call.Fun.(*ast.Ident); ok && id.Name == "close" && len(v.Call.Args) == 1 && x.src(v.Call.Args[0]) == env.sinkExpr {
+				env.closes++
+				continue
+			}
+			env.unsupp = "statement " + x.src(s)
 		case *ast.BlockStmt:
 			x.exec(v.List, env)
 		case *ast.EmptyStmt:
@@ -418,6 +447,26 @@ func provloopsFinish(t *tr, load func(string) *packages.Package) string {
 		}
 	}
 	return b.String()
+}
+
+// provloopsFinClosesAll: the deferred function of http Run closes p.Sink exactly once on each of its six paths
+// (wherever the close statement stands: at the top level of the literal, in a branch, in a nested defer)
+func provloopsFinClosesAll(p *packages.Package, fd *ast.FuncDecl) bool {
+	x := &provloopsFin{p: p}
+	_, fl := x.deferOf(fd, "p.Sink")
+	if fl == nil {
+		return false
+	}
+	for _, errNil := range []bool{true, false} {
+		for _, cl := range []string{"absent", "ok", "fails"} {
+			env := &provloopsFinEnv{errNil: errNil, cl: cl, res: "keep", sinkExpr: "p.Sink", closeField: "p.Close"}
+			x.exec(fl.Body.List, env)
+			if env.unsupp != "" || env.nilCall || env.closes != 1 {
+				return false
+			}
+		}
+	}
+	return true
 }
 
 func provloopsFinFail(t *tr, p *packages.Package, n ast.Node, format string, a ...any) string {
